@@ -8,7 +8,7 @@ git -C /repo apply "/verif/seeded/$NAME/patch.diff" || { echo "patch does not ap
 for P in "$@"; do
   VERIF_SCRATCH=/verif/.scratch/mut ./check "$P" --tier "${TIER:-quick}" > .scratch/mut-$NAME-$P.log 2>&1
   rc=$?
-  echo "$NAME $P exit=$rc $(grep -c '^VIOLATION' .scratch/mut-$NAME-$P.log) violations; first: $(grep -m1 '^VIOLATION\|MACHINERY' .scratch/mut-$NAME-$P.log | cut -c1-220)"
+  echo "$NAME $P exit=$rc $(grep -c '^VIOLATION' .scratch/mut-$NAME-$P.log) violations; first: $(grep -m1 -A1 '^VIOLATION\|MACHINERY' .scratch/mut-$NAME-$P.log | tr '\n' ' ' | cut -c1-260)"
 done
 git -C /repo checkout -- .
 git -C /verif checkout -- evidence 2>/dev/null
